@@ -112,7 +112,7 @@ type c18scn struct {
 
 type c18stats struct {
 	writes, drift, late, trunc, noshow, reconnects, failed, sent, over atomic.Int64
-	mcast, mcastSent, reshaped                                        atomic.Int64
+	mcast, mcastSent, reshaped                                         atomic.Int64
 
 	mu      sync.Mutex
 	driftBy map[string]int    // class -> count
@@ -764,7 +764,9 @@ func c18runGroup(scns []*c18scn, s *vt.Sink, st *c18stats) (trs []*vt.Trace, err
 	g := scns[0]
 	e := &c18env{max: g.Max, secure: g.Secure, mki: g.MKI, srvTap: bed.NewTap(), readers: map[string]*c18reader{},
 		pubs: map[string]*c18pub{}, accounted: map[*bed.Tap]int{}, st: st}
-	cfg := bed.ServerCfg{UDP: true, MaxPacketSize: g.Max, Medias: 2, ReportPeriod: time.Hour}
+	// ReadTimeout: the publishers send nothing for as long as a scenario lasts (all shapes in the
+	// thorough tier: more than the default 10 s); the server must not drop their sessions meanwhile
+	cfg := bed.ServerCfg{UDP: true, MaxPacketSize: g.Max, Medias: 2, ReportPeriod: time.Hour, ReadTimeout: 120 * time.Second}
 	if g.Secure {
 		cfg.TLS = bed.SelfSignedTLS()
 	}
@@ -848,7 +850,7 @@ func (m *c18mcast) close() {
 // bed.Tap it turns the tap into a recorder of datagrams observed elsewhere.
 type c18discard struct{}
 
-func (c18discard) ReadFrom([]byte) (int, net.Addr, error)  { return 0, nil, io.EOF }
+func (c18discard) ReadFrom([]byte) (int, net.Addr, error)    { return 0, nil, io.EOF }
 func (c18discard) WriteTo(p []byte, _ net.Addr) (int, error) { return len(p), nil }
 func (c18discard) Close() error                              { return nil }
 func (c18discard) LocalAddr() net.Addr                       { return &net.UDPAddr{} }
@@ -932,7 +934,8 @@ func (e *c18env) multicast() (m *c18mcast, err error) {
 	// a range of its own per server (servers of other groups run in parallel; other processes may
 	// use multicast too)
 	ipRange := fmt.Sprintf("239.%d.%d.0/24", 64+os.Getpid()%128, c18mcastSeq.Add(1)%256)
-	cfg := bed.ServerCfg{UDP: true, MaxPacketSize: e.max, Medias: 2, ReportPeriod: time.Hour, IP: ips[0].String()}
+	cfg := bed.ServerCfg{UDP: true, MaxPacketSize: e.max, Medias: 2, ReportPeriod: time.Hour, IP: ips[0].String(),
+		ReadTimeout: 120 * time.Second}
 	if e.secure {
 		cfg.TLS = bed.SelfSignedTLS()
 	}
